@@ -291,7 +291,7 @@ Section Heap.
     - intros k. unfold upd. destruct (Nat.eqb_spec k i) as [->|K].
       + split; [intros _; exists (S n); split; [lia|reflexivity]|discriminate].
       + rewrite (HO k). split; intros (j & Hj & E); exists j; (split; [|exact E]); [lia|].
-        destruct (Nat.eq_dec j (S n)) as [->|]; [congruence|lia].
+        destruct (Nat.eq_dec j (S n)) as [->|]; [exfalso; apply K; symmetry; exact E|lia].
     - intros k. unfold upd. destruct (Nat.eqb_spec k i); [discriminate|apply HE].
     - intros k Hk Hki. rewrite upd_other in Hk |- * by exact Hki. apply HA. exact Hk.
     - intros _. rewrite !upd_same. split; [discriminate|reflexivity].
@@ -312,7 +312,7 @@ Section Heap.
     { intros k. unfold upd. destruct (Nat.eqb_spec k b) as [->|K].
       - split; [congruence|]. intros (j & Hj & E). apply (slot_inj cap OK) in E; lia.
       - rewrite (HO k). split; intros (j & Hj & E); exists j; (split; [|exact E]); [|lia].
-        destruct (Nat.eq_dec j (S n)) as [->|]; [congruence|lia]. }
+        destruct (Nat.eq_dec j (S n)) as [->|]; [exfalso; apply K; symmetry; exact E|lia]. }
     split; [exact HO'|]. split; [split|].
     - intros k. unfold upd. destruct (Nat.eqb_spec k b); [reflexivity|apply HE].
     - intros k. unfold upd. destruct (Nat.eqb_spec k b); [congruence|apply HA].
